@@ -47,25 +47,45 @@ def run_unit(unit: tuple, acc: Any) -> None:
     tier = unit[3]
     for desc, g in acc.watch(G.expand(unit)):
         check_grammar(desc, g, tier, acc)
+        g2 = respell(g)
+        if g2 is not None:
+            check_grammar(dict(desc, spelled=True), g2, tier, acc)
+
+
+def respell(g: Any) -> Any:
+    """The same grammar with 'a' spelled 'if', for grammars that use exactly one keyword: the token strings then hold a
+    name ('i') that is part of the keyword, and the keyword table has a single entry."""
+    hard, _soft = pegref.grammar_keywords(g)
+    if hard != {"a"}:
+        return None
+    return parse_text(G.render(g).replace("'a'", "'if'"))
 
 
 def check_case(case: dict, acc: Any) -> None:
     tier = case.get("tier", "thorough")
-    check_grammar(case, G.rebuild(case, tier), tier, acc)
+    g = G.rebuild(case, tier)
+    check_grammar(case, respell(g) if case.get("spelled") else g, tier, acc)
 
 
 _STRINGS: dict[int, list[tuple[str, list]]] = {}
 
 
-def strings(n: int) -> list[tuple[str, list]]:
-    """[(text, significant tokens)] for all strings over {a,b,c} up to length n."""
+SPELL = {"a": "if", "b": "b", "c": "i"}  # second spelling: a keyword of two letters and a name that is part of it
+
+
+def strings(n: int, spelled: bool = False) -> list[tuple[str, list]]:
+    """[(text, significant tokens)] for all strings over {a,b,c} up to length n (or over their second spelling)."""
+    if spelled:
+        n = -n
     if n not in _STRINGS:
         from peg_parser.tokenize import Token, generate_tokens
         from peg_parser.tokenizer import Tokenizer
 
         out = []
-        for k in range(0, n + 1):
+        for k in range(0, abs(n) + 1):
             for tup in itertools.product("abc", repeat=k):
+                if spelled:
+                    tup = tuple(SPELL[t] for t in tup)
                 text = " ".join(tup) + ("\n" if tup else "")
                 tk = Tokenizer(generate_tokens(text))
                 toks = []
@@ -174,9 +194,14 @@ def check_grammar(desc: dict, g: Any, tier: str, acc: Any) -> None:
     except Exception as e:  # noqa: BLE001
         acc.violation(f"GENERATOR raises {type(e).__name__} family={fam}", case, str(e)[:200])
         return
-    kw = set(cls.KEYWORDS) | set(cls.SOFT_KEYWORDS)
+    hard, soft = pegref.grammar_keywords(g)
+    if not isinstance(cls.KEYWORDS, tuple) or not isinstance(cls.SOFT_KEYWORDS, tuple) or set(cls.KEYWORDS) != hard or set(cls.SOFT_KEYWORDS) != soft:
+        acc.violation(f"GENERATOR keyword tables differ from the grammar's literals family={fam}", case,
+                      {"KEYWORDS": repr(cls.KEYWORDS), "SOFT_KEYWORDS": repr(cls.SOFT_KEYWORDS), "grammar": [sorted(hard), sorted(soft)]})
+        return
+    kw = hard | soft
     n = 4 if tier == "quick" else 5
-    for text_in, toks in strings(n):
+    for text_in, toks in strings(n, bool(desc.get("spelled"))):
         for rule in ("r", "start"):
             if rule == "start" and not text_in:
                 continue
